@@ -258,3 +258,28 @@ pub fn embedded_verbatim_short<S: Src>(s: &mut S) {
     vcover!(strict_ok && buf[0] >> 4 == 14, "valid reward embedded");
     fg(a);
 }
+
+
+/// the same for carried strings of length <= 6 (every such string is malformed or a Byron candidate; the harness that
+/// covers <= 34 bytes does not finish within 30 minutes and is not part of any claim)
+pub fn embedded_verbatim_tiny<S: Src>(s: &mut S) {
+    let buf: [u8; 6] = s.bytes();
+    let len = s.below(7) as usize;
+    s.assume(len == 0 || buf[0] >> 4 != 8);
+    let mut w = [0u8; 8];
+    w[0] = 0x40 | len as u8;
+    let mut i = 0;
+    while i < 6 { w[1 + i] = buf[i]; i += 1; }
+    let data = vec_upto(&w, 1 + len);
+    let r = crate::csl::from_bytes::<Address>(&data);
+    let a = r.unwrap();
+    let m = MalformedAddress::from_address(&a).unwrap();
+    let ob = m.original_bytes();
+    assert!(ob.len() == len);
+    let mut i = 0;
+    while i < len { assert!(ob[i] == buf[i]); i += 1; }
+    fg(m);
+    vcover!(len == 0, "empty embedded address");
+    vcover!(len == 6 && buf[0] >> 4 == 6, "short enterprise header");
+    fg(a);
+}
